@@ -252,6 +252,17 @@ func runParseProp(c *Ctx, prop string) (int, error) {
 	if err != nil {
 		return 2, err
 	}
+	// the constants/enums/opcodes schema of Gen_Literals.tla joins the universe: its File carries the
+	// evaluated [flags] members and the opcode values
+	if lc, lgr, err := genLiteralsCase(c); err != nil {
+		return 2, err
+	} else {
+		// how inf/-inf/nan are spelled inside File.Consts[i].Value is not part of the schema's meaning (C15 judges the value)
+		nf := blankFloatConsts(lc.File)
+		cases = append(cases, &parseCase{Part: "literals", Ci: 1, Tokens: lc.Tokens, File: nf, AsIs: nf})
+		gr.Distinct += lgr.Distinct
+		gr.Generated += lgr.Generated
+	}
 	var events []map[string]interface{}
 	timeouts := 0
 	for i, cs := range cases {
@@ -267,7 +278,10 @@ func runParseProp(c *Ctx, prop string) (int, error) {
 					return 2, infra("exporting the parsed File failed: %s", msg)
 				}
 				e := map[string]interface{}{"ev": "parse", "cid": i + 1, "layout": lay.Name, "res": res, "msg": msg, "text": text}
-				if file != nil {
+				if file != nil && cs.Part == "literals" {
+					b, _ := json.Marshal(file)
+					e["file"] = blankFloatConsts(b)
+				} else if file != nil {
 					e["file"] = file
 				} else {
 					e["file"] = map[string]interface{}{}
@@ -397,4 +411,22 @@ func judgeCfg(prop string, devs []string) string {
 		return fmt.Sprintf("CONSTANTS\n  Devs = %s\nSPECIFICATION Spec\nINVARIANT Done\nPOSTCONDITION TraceAccepted\nCHECK_DEADLOCK FALSE\n", tlaSet(devs))
 	}
 	return fmt.Sprintf("CONSTANTS\n  Prop = %q\n  Devs = %s\nSPECIFICATION Spec\nINVARIANT Done\nPOSTCONDITION TraceAccepted\nCHECK_DEADLOCK FALSE\n", prop, tlaSet(devs))
+}
+
+func blankFloatConsts(file json.RawMessage) json.RawMessage {
+	var f map[string]interface{}
+	if json.Unmarshal(file, &f) != nil {
+		return file
+	}
+	if cs, ok := f["consts"].([]interface{}); ok {
+		for _, c := range cs {
+			if m, ok := c.(map[string]interface{}); ok {
+				if t, _ := m["t"].(string); t == "float32" || t == "float64" {
+					m["value"] = ""
+				}
+			}
+		}
+	}
+	b, _ := json.Marshal(f)
+	return b
 }
